@@ -48,8 +48,10 @@ def decompose(rng, prog):
     more = ["// more classes", ""]
     if nested:
         inc.append('#include "more.gdh"')
-    for c in classes:
-        to_more = nested and rng.random() < 0.5
+    # (class definitions may refer to earlier classes: the nested file, included first, takes a prefix of them)
+    nmore = rng.randint(1, max(1, len(classes) - 1)) if nested else 0
+    for ci_, c in enumerate(classes):
+        to_more = ci_ < nmore
         target = more if to_more else inc if use_inc else main
         tname = "inc/more.gdh" if to_more else incname if use_inc else "p.gdl"
         r = rng.random()
